@@ -33,7 +33,7 @@ inline unsigned char rx_byte(uint64_t i) { return (unsigned char)((i * 89 + (i >
 
 // ops (all outside): <kind> <dt_ms> <n> <x>
 //   presend n   (mode 0 only, before enable)      enable       send n      prd n      pwr n
-//   policy threshold consume(0 all,1 k bytes,2 nothing) k        pclose      disconnect     advance ms
+//   policy threshold consume(0 all,1 k bytes,2 nothing) k        pclose      pwrclose n      disconnect     advance ms
 void generate(sim::Rng &r, uint64_t seed, const std::string &tier, sim::Plan &p) {
   bool thorough = tier == "thorough";
   long mode = (long)r.below(3);
@@ -74,7 +74,8 @@ void generate(sim::Rng &r, uint64_t seed, const std::string &tier, sim::Plan &p)
     else if (x < 80) { op.kind = "pwr"; op.a = {dt, pick_size(), 0}; }
     else if (x < 90) { op.kind = "policy"; op.a = {dt, r.pick((const long[]){0, 0, 1, 1, 2, 10, 2000}), (long)r.below(3), r.range(1, 3000)}; }
     else if (x < 93) { op.kind = "advance"; op.a = {dt, r.range(1, 200), 0}; }
-    else if (x < 97 && !closed && i > n / 2) { op.kind = "pclose"; op.a = {dt, 0, 0}; closed = true; }
+    else if (x < 95 && !closed && i > n / 2) { op.kind = "pclose"; op.a = {dt, 0, 0}; closed = true; }
+    else if (x < 97 && !closed && i > n / 2) { op.kind = "pwrclose"; op.a = {dt, pick_size(), 0}; closed = true; }   // last bytes and close pending in the same wake-up
     else if (x < 99 && !closed && i > n / 2) { op.kind = "disconnect"; op.a = {dt, 0, 0}; closed = true; }
     else { op.kind = "prd"; op.a = {dt, 100000, 0}; }
     fset(op);
@@ -319,6 +320,7 @@ void execute(const sim::Plan &plan) {
       else if (k == "pwr") peer_write(std::max(1L, std::min(4000000L, op->arg(1))));
       else if (k == "advance") sim::advance_ms(std::max(1L, std::min(1000L, op->arg(1))));
       else if (k == "pclose") { if (W.pfd >= 0 && !W.peer_closed) { close(W.pfd); W.peer_closed = true; sim::trace("peer close"); } }
+      else if (k == "pwrclose") { if (W.pfd >= 0 && !W.peer_closed) { peer_write(std::max(1L, std::min(4000000L, op->arg(1)))); close(W.pfd); W.peer_closed = true; sim::trace("peer write+close"); } }
       else W.loop->runInLoop([op] { apply(*op); }, "c06.op");
     }, (int)i);
   }
